@@ -235,6 +235,43 @@ def asyncSend {σ} (g : Rng σ) (cfg : DevCfg) (r : DevRun) (data : List Nat) (p
       | .radioErr r => pure (if faultExpired r.m then .ok .sessionExpired else .errRadio, { r with m := faultAfterTx r.m }, rs)
       | .macErr r => pure (if faultExpired r.m then .ok .sessionExpired else .errMac, { r with m := faultAfterTx r.m }, rs)
 
+/-- what `Device::rxc_listen` yields: a response, an error, or — nothing (more) heard — the future is
+still pending (the application keeps awaiting it or drops it) -/
+inductive ListenResult where
+  | ok (r : Response)
+  | errRadio
+  | errMac
+  | listening
+  deriving DecidableEq, Repr
+
+/-- the loop of `Device::rxc_listen`: frames reported by `rx_continuous` are handed to
+`Mac::handle_rxc` under the RXC size limit computed once before the loop; `NoUpdate` goes on
+listening; `Err(NotJoined)` and radio errors are propagated; the response is converted with
+`ListenResponse::from`, which panics on anything but `DownlinkReceived` / `SessionExpired` -/
+def listenLoop (mp : Nat) : Nat → DevRun → M (ListenResult × DevRun)
+  | 0, _ => hang "rxc_listen"
+  | fuel + 1, r =>
+    let (i, r) := (r.log .rxContinuous).next
+    match i with
+    | .err => pure (.errRadio, r)
+    | .ok => pure (.listening, r)
+    | .frame snr v => do
+      let (o, m) ← macHandleRx r.m v mp snr true
+      let r := ({ r with m := m }).deliver o
+      match o with
+      | none => pure (.errMac, r)
+      | some out =>
+        match out.resp with
+        | .noUpdate => listenLoop mp fuel r
+        | .downlinkReceived n => pure (.ok (.downlinkReceived n), r)
+        | .sessionExpired => pure (.ok .sessionExpired, r)
+        | _ => panic "ListenResponse::from"
+
+/-- `Device::rxc_listen` -/
+def asyncListen (r : DevRun) : M (ListenResult × DevRun) := do
+  let rf ← macRxcConfig r.m
+  listenLoop rf.maxPayload.toNat 64 r
+
 /-- `Device::join` (OTAA) -/
 def asyncJoin {σ} (g : Rng σ) (cfg : DevCfg) (r : DevRun) (rs : σ) : M (DevResult × DevRun × σ) := do
   let (out, m, rs) ← macJoinOtaa g r.m rs
